@@ -10,6 +10,7 @@ CONSTANTS
   MaxChanges = 2
   MaxCancels = 1
   SkipCancelled = TRUE
+  FastPath = FALSE
   Timely = TRUE
   StaleFullBucket = TRUE
   StaleRateOnChange = FALSE
